@@ -527,6 +527,11 @@ def r19_9(chk):
 
 
 def run(chk):
+    # a resumed run ends with the same store only if completing an input retires the not-completed record an
+    # interrupted run left for it -- in every mode: C13's R13.3 (the retirement is on every path of a completed write)
+    from . import c13
+
+    c13.r13_3(chk)
     r19_9(chk)
     r19_8(chk)
     r19_7(chk)
